@@ -11,7 +11,7 @@ use chess::move_generator::MoveGenerator;
 use rayon::prelude::*;
 use serde_json::{json, Value};
 
-pub const RULE: &str = "for the tables compiled into this build: every square x EVERY subset of the relevant blocker mask (inner ray squares) for the rook (102,400 cases) and the bishop (5,248 cases), enumerated completely with the carry-rippler, blockers placed as enemy pieces of every kind (pawn, knight, bishop, rook, queen and at most one king, chosen per square), each also with variants adding enemy pieces on the ray-end edge squares and off the rays; queens on every square with generated occupancies; knights and kings on all 64 squares alone and with generated own/enemy neighbours. Observed through MoveGenerator::get_attack_targets on a board holding the single piece under test for its colour (both colours are used). Oracle: ray walking in (file, rank) coordinates up to and including the first occupied square; L-shaped / adjacent offsets computed in coordinates (no bit shifts). Builds: N in-process runs of the build script's magic search (precompile::magic::find_magics::find_and_write_all_magics) are parsed and checked with the documented index formula offset + ((occ & mask) * magic >> shift): mask == inner rays, filling by ray walking is collision-free, segments do not overlap, declared table size matches; the thorough tier also forces a clean rebuild so the compiled tables come from a new draw. Non-trivial = at least one blocker on a ray or an edge/corner square; distinct = (piece, square, occupancy).";
+pub const RULE: &str = "for the tables compiled into this build: every square x EVERY subset of the relevant blocker mask (inner ray squares) for the rook (102,400 cases) and the bishop (5,248 cases), enumerated completely with the carry-rippler, blockers placed as enemy pieces of every kind (pawn, knight, bishop, rook, queen and at most one king, chosen per square), each also with variants adding enemy pieces on the ray-end edge squares and off the rays; queens on every square with generated occupancies; knights and kings on all 64 squares alone and with generated own/enemy neighbours. Observed through MoveGenerator::get_attack_targets on a board holding the single piece under test for its colour (both colours are used). Oracle: ray walking in (file, rank) coordinates up to and including the first occupied square; L-shaped / adjacent offsets computed in coordinates (no bit shifts). One-generator stress: 2^19 (quick) / 2^24 (thorough) generated boards are put to each of four generators that are never renewed, so two boards that the attack-map cache cannot tell apart would meet. Builds: N in-process runs of the build script's magic search (precompile::magic::find_magics::find_and_write_all_magics) are parsed and checked with the documented index formula offset + ((occ & mask) * magic >> shift): mask == inner rays, filling by ray walking is collision-free, segments do not overlap, declared table size matches; the thorough tier also forces a clean rebuild so the compiled tables come from a new draw. Non-trivial = at least one blocker on a ray or an edge/corner square; distinct = (piece, square, occupancy).";
 
 fn ray_attacks(sq: u8, occ: u64, dirs: &[(i8, i8)]) -> u64 {
     let mut out = 0u64;
@@ -458,8 +458,79 @@ fn run_draws(env: &Env, agg: &mut Stats) -> Option<Violation> {
     None
 }
 
+/// Many distinct boards put to ONE generator each (its attack-map cache is never renewed):
+/// whatever the cache keeps of a position must be enough to tell it from every other one.
+fn run_stress(env: &Env, agg: &mut Stats) -> Option<Violation> {
+    let name = "C11/one-generator-stress";
+    let per_generator: u64 = env.tier.pick(1 << 19, 1 << 24);
+    let generators = env.tier.pick(4u64, 4u64);
+    let seed = env.seed;
+    let results: Vec<(Stats, Option<(Case, String)>)> = (0..generators)
+        .into_par_iter()
+        .map(|gi| {
+            let mut st = Stats::default();
+            let mut g = MoveGenerator::new();
+            let mut rng = (seed ^ (gi + 1).wrapping_mul(0xD1B54A32D192ED03)) | 1;
+            let qdirs: Vec<(i8, i8)> = ROOK_DIRS.iter().chain(BISHOP_DIRS.iter()).cloned().collect();
+            let mut run = || -> Result<(), (Case, String)> {
+                for i in 0..per_generator {
+                    let r = xorshift(&mut rng);
+                    let sq = (r % 64) as u8;
+                    let mut occ = xorshift(&mut rng);
+                    for _ in 0..(r >> 8) % 3 {
+                        occ &= xorshift(&mut rng);
+                    }
+                    let white = (r >> 16) & 1 == 0;
+                    match (r >> 20) % 3 {
+                        0 => check_slider(&mut g, Piece::Rook, "rook", &ROOK_DIRS, sq, occ, white, &mut st)?,
+                        1 => check_slider(&mut g, Piece::Bishop, "bishop", &BISHOP_DIRS, sq, occ, white, &mut st)?,
+                        _ => check_slider(&mut g, Piece::Queen, "queen", &qdirs, sq, occ, white, &mut st)?,
+                    }
+                    let _ = i;
+                }
+                Ok(())
+            };
+            let r = match no_panic(&mut run) {
+                Ok(r) => r.err(),
+                Err(m) => Some((
+                    Case {
+                        piece: "panic",
+                        sq: 0,
+                        occ: 0,
+                        white: true,
+                    },
+                    format!("panic during the one-generator stress: {}", m),
+                )),
+            };
+            // keep only a bounded number of fingerprints in memory
+            st.nontrivial.shrink_to_fit();
+            (st, r)
+        })
+        .collect();
+    let mut v = None;
+    for (st, r) in results {
+        agg.merge(st);
+        if v.is_none() {
+            if let Some((c, msg)) = r {
+                v = Some(violation(
+                    name,
+                    case_json(&c),
+                    Failure::new(format!("{} (asked of a generator that had answered many other boards before)", msg)),
+                ));
+            }
+        }
+    }
+    agg.count("boards_per_long_lived_generator", per_generator);
+    v
+}
+
 pub fn checks() -> Vec<Box<dyn DynCheck>> {
     vec![
+        Box::new(FnCheck {
+            name: "C11/one-generator-stress",
+            run: run_stress,
+            replay: replay_case,
+        }),
         Box::new(FnCheck {
             name: "C11/compiled-tables",
             run: run_compiled,
